@@ -285,6 +285,103 @@ def fn_label(s, fn):
     return "%s::%s" % (re.sub(r"<.*", "", s), fn["name"]) if s else fn["name"]
 
 
+def file_consts(src, file):
+    """name -> initialiser of every `const` item of the file, at module level or nested in a fn / impl body (a literal and a named constant
+    holding it mean the same)"""
+    f = src.files.get(file)
+    if f is None:
+        return {}
+    out = {}
+    for n in find_all({"k": "file", "items": f["items"]}, lambda n: n.get("k") == "const" and n.get("name") and isinstance(n.get("expr"), dict)):
+        out.setdefault(n["name"], n["expr"])
+    return out
+
+
+def deconst(e, consts, depth=0):
+    """the expression with a (possibly referenced / parenthesised) path to a named constant replaced by the constant's initialiser"""
+    x = e
+    while depth < 6 and isinstance(x, dict):
+        y = unref(x)
+        while isinstance(y, dict) and y.get("k") == "paren":
+            y = y["e"]
+        if is_path(y) and y["p"].split("::")[-1] in consts and y["p"].split("::")[-1].isupper():
+            x = consts[y["p"].split("::")[-1]]
+            depth += 1
+            continue
+        return y
+    return x
+
+
+def checked_product(prog, body, operand, depth=0, subst=None):
+    """sorted factor terms when the Option<int> operand is `Some(f1 * f2 * ..)` only if no partial product overflowed (None otherwise), however
+    that is spelled: `a.checked_mul(b)`, `x.and_then(|p| p.checked_mul(c))`, `match x { Some(p) => p.checked_mul(c), None => None }`,
+    `x?` .. -- every definition of the value is either None or a checked product with the same factors.  None = not such a value."""
+    from ..flow import expr as _e
+    from ..mir import op_local
+    if depth > 8 or operand["k"] == "const":
+        return None
+    pl = operand["place"]
+    if pl["p"] and not all(e["k"] == "deref" for e in pl["p"]):
+        return None
+    l = pl["l"]
+    if subst and l in subst and not pl["p"]:
+        return subst[l]
+    ds = body.defs_of(l)
+    if not ds or 0 < l <= body.arg_count:
+        return None
+
+    def factors(o):
+        """factor terms of a plain integer operand: the payload of a checked product contributes that product's factors"""
+        if o["k"] != "const":
+            p2 = o["place"]
+            if subst and p2["l"] in subst and not p2["p"]:
+                return subst[p2["l"]]
+            d2 = body.defs_of(p2["l"]) if not p2["p"] else []
+            if len(d2) == 1 and d2[0][1] != "term" and d2[0][2]["k"] == "use" and d2[0][2]["a"]["k"] != "const":
+                src_ = d2[0][2]["a"]["place"]
+                pr = [e for e in src_["p"] if e["k"] != "deref"]
+                if len(pr) == 2 and pr[0]["k"] == "downcast" and pr[0]["variant"] == "Some" and pr[1]["k"] == "field":
+                    inner = checked_product(prog, body, {"k": "copy", "place": {"l": src_["l"], "p": []}}, depth + 1, subst)
+                    if inner is not None:
+                        return inner
+                if not pr or all(e["k"] == "field" for e in pr):
+                    return factors(d2[0][2]["a"]) if not src_["p"] else [_e(body, o)]
+        return [_e(body, o)]
+    out = None
+    for bb, si, rv in ds:
+        fs = None
+        if si == "term":
+            t = rv
+            if call_matches(t, r"::checked_mul$") and len(t["args"]) == 2:
+                fa, fb = factors(t["args"][0]), factors(t["args"][1])
+                fs = sorted(fa + fb) if fa is not None and fb is not None else None
+            elif call_matches(t, r"^std::option::Option::<T>::and_then$") and len(t["args"]) == 2:
+                inner = checked_product(prog, body, t["args"][0], depth + 1, subst)
+                cl = op_local(t["args"][1])
+                cds = [d for d in body.defs_of(cl) if d[1] != "term" and d[2]["k"] == "agg" and d[2].get("ak") == "closure"] if cl is not None else []
+                cb = prog.body(cds[0][2]["def"]) if len(cds) == 1 else None
+                if inner is not None and cb is not None:
+                    caps = [_e(body, f) for f in cds[0][2]["fields"]]
+                    got = checked_product(prog, cb, {"k": "copy", "place": {"l": 0, "p": []}}, depth + 1, {2: inner})
+                    if got is not None:
+                        # captured values are named through the closure environment: rewrite `arg1.N` to the captured term
+                        fs = sorted(re.sub(r"^arg1\.(\d+)$", lambda m: caps[int(m.group(1))] if int(m.group(1)) < len(caps) else m.group(0), g) for g in got)
+            elif call_matches(t, r"Try>::branch$|Try::branch$|FromResidual"):
+                fs = None
+        elif rv["k"] == "agg" and rv.get("adt") == "std::option::Option" and rv.get("variant") == "None":
+            continue
+        elif rv["k"] == "use" and rv["a"]["k"] != "const" and not rv["a"]["place"]["p"]:
+            fs = checked_product(prog, body, rv["a"], depth + 1, subst)
+        elif rv["k"] == "ref" and not rv["place"]["p"]:
+            fs = checked_product(prog, body, {"k": "copy", "place": rv["place"]}, depth + 1, subst)
+        if fs is None:
+            return None
+        if out is not None and out != fs:
+            return None
+        out = fs
+    return out
+
+
 def eval_const(e, env):
     k = e.get("k")
     if k == "lit" and e["t"] == "int":
@@ -326,16 +423,18 @@ def obligations(ctx):
         for bb, t in v.calls():
             if call_matches(t, r"^std::cmp::PartialEq::(ne|eq)$|PartialEq.*>::(ne|eq)$"):
                 es = [expr(v, a) for a in t["args"]]
-                if any("Vec::len(" in e for e in es) and any(len(re.findall(r"checked_mul", e)) >= 1 and "and_then" in e for e in es):
-                    cmps.append((bb, t, es))
+                # one side is Some(data.len()), the other the checked product of three factors (whatever its spelling)
+                prods = [checked_product(prog, v, a) for a in t["args"]]
+                prods = [p_ for p_ in prods if p_ is not None and len(p_) == 3]
+                if any("Vec::len(" in e for e in es) and prods:
+                    cmps.append((bb, t, es + ["checked product of " + " * ".join(prods[0])]))
         nw = [(bb, t) for bb, t in v.calls() if call_matches(t, r"^surface::SurfaceOwned::<T>::new_with$")]
         # the comparison that guards the allocation (a later debug_assert of the same equality is not it)
         dom = [c for c in cmps if nw and all(vcfg.dominates(c[0], bb) for bb, t in nw)]
         cmpb = dom[0] if dom else (cmps[0] if cmps else None)
         ok_dom = bool(dom)
         # the second factor is multiplied inside the and_then closure with checked_mul as well
-        cl = [b for b in prog.bodies if b.closure_root == v.path and any(call_matches(t, r"::checked_mul$") for bb, t in b.calls())]
-        ok_chk = cmpb is not None and len(cl) >= 1
+        ok_chk = cmpb is not None       # checked_product() accepts checked multiplications only
         ctx.instance("IMAGE-SIZE", {"length_comparison": cmpb[2] if cmpb else None, "dominates_new_with_calls": ok_dom, "second_factor_checked": ok_chk})
         sites = [v.loc]
         if not (ok_dom and ok_chk):
@@ -545,6 +644,7 @@ def run(ctx):
         elif cval != per_px:
             ctx.violation("IMAGE-CHANNELS", "Image::serialize", "channels-vs-bytes", "Image::serialize announces channels=%d but writes %d bytes per pixel" % (cval, per_px), sites=["%s:%d" % (sb.file, chan[0][1]["line"])])
         # visitor side
+        fconsts = file_consts(src, vfile)
         try:
             cloc = tab["keys"].get("channels", (None, 0))[0]
             dloc = tab["keys"].get("data", (None, 0))[0]
@@ -562,7 +662,7 @@ def run(ctx):
             if acc is None:
                 # the same validation spelled `[1, 3, 4].contains(&channels)` or `channels == 1 || channels == 3 || ..`
                 for mc in find_all(vfn, lambda n: n.get("k") == "mcall" and n["m"] == "contains" and len(n["args"]) == 1 and is_path(unref(n["args"][0]), cloc)):
-                    arr = unref(mc["recv"])
+                    arr = deconst(mc["recv"], fconsts)       # `[1, 3, 4]` or a constant holding it
                     if arr.get("k") == "array" and all(lit_int(x) is not None for x in arr["elems"]):
                         acc = {lit_int(x) for x in arr["elems"]}
                         vnode = mc
@@ -584,7 +684,7 @@ def run(ctx):
                             vnode = e
             if acc is None:
                 raise NotUnderstood("no matches!(channels, ..) validation of the channels key")
-            dflt = lit_int(tab["locals"][cloc])
+            dflt = lit_int(deconst(tab["locals"][cloc], fconsts))
             # Is the validation a rejection right where channels is assigned?  `channels = <value>; if !VALID { return Err(..) }` inside the
             # "channels" arm and no other assignment: then channels is in `acc` wherever it is read afterwards (side condition of the
             # IMAGE-ARMS lemma used when the interpreter cannot evaluate the spelling of VALID itself).
@@ -632,10 +732,20 @@ def run(ctx):
                         e = defs[e["p"]]
                     else:
                         break
-                return expr_text(e) if e is not None else ""
+                if e is None:
+                    return ""
+                # a product spelled with control flow (`match a.checked_mul(b) { Some(p) => p.checked_mul(c), None => None }`, `if let ..`)
+                # names its factors in the scrutinee and the arms: all calls / operators of the expression are part of its text
+                if e.get("k") in ("match", "if", "block", "letcond"):
+                    return " ; ".join(expr_text(x) for x in find_all(e, lambda x: x.get("k") in ("mcall", "call", "bin")))
+                return expr_text(e)
             for n in find_all(vfn, lambda n: n.get("k") == "if" and n["line"] < lm["line"]):
                 c = n["cond"]
-                if c.get("k") == "bin" and c["op"] == "!=" and find_all(n["then"], lambda x: x.get("k") == "return"):
+                neg = False
+                while c.get("k") == "un" and c["op"] == "!":
+                    c, neg = c["e"], not neg
+                rej = n["then"] if not neg else n.get("else")
+                if c.get("k") == "bin" and c["op"] == ("==" if neg else "!=") and rej is not None and find_all(rej, lambda x: x.get("k") == "return"):
                     txt = [side_text(c["l"]), side_text(c["r"])]
                     has_len = any(re.fullmatch(re.escape(dloc) + r"\.len\(\)", t) for t in txt)
                     prod = [t for t in txt if cloc in t and "height" in t and "width" in t and ("*" in t or "_mul" in t)]
@@ -853,9 +963,18 @@ def run(ctx):
             else:
                 raise NotUnderstood("from_str_named arm %s" % strs)
         splits = {}
-        for n in find_all(fsn, lambda n: n.get("k") == "mcall" and n["m"] in ("split", "splitn")):
-            a = n["args"][-1]
-            splits[n["m"]] = chr(a["v"]) if a.get("t") == "char" else a.get("v")
+        # the item separator is what `split(SEP)` cuts on; the key/value separator is what cuts an item once, at the first occurrence:
+        # `splitn(2, SEP)` (two `next()`s) and `split_once(SEP)` (a pair, or None when absent) are the same cut.  A separator may be a
+        # char, a one-character string or a constant naming either.
+        fsn_consts = file_consts(src, FACE)
+        for n in find_all(fsn, lambda n: n.get("k") == "mcall" and n["m"] in ("split", "splitn", "split_once") and n["args"]):
+            a = deconst(n["args"][-1], fsn_consts)
+            if a.get("k") != "lit":
+                continue
+            if n["m"] == "splitn" and (len(n["args"]) != 2 or lit_int(deconst(n["args"][0], fsn_consts)) != 2):
+                continue
+            role = "split" if n["m"] == "split" else "splitn"
+            splits[role] = chr(a["v"]) if a.get("t") == "char" and isinstance(a["v"], int) else a.get("v")
         trims = len(find_all(fsn, lambda n: n.get("k") == "mcall" and n["m"] == "trim"))
         W = "Face::from_str_named"
 
